@@ -27,6 +27,10 @@ EXPLANATION = (
   " (PAIR-compute) every uncomputed value copied onto the ISD element is registered, with the same property, in the set handed to _compute_styles;"
   ' (ORD-postorder) the recursive pruning of empty spans decides whether a child is empty only after it has unconditionally recursed into that child, so a span whose content is pruned does not survive childless;'
   ' (ORD-style) animation, specified, inherited and initial values are applied and the styles computed before display=none prunes the element and before the children are visited (a display value can come from any of these sources);'
+  ' (TRAV-rec) every function that walks the tree by calling itself on the children reaches that child loop on every path (the three walkers that prune by design are tabled with the rules that decide their pruning);'
+  ' (LINT-l) no tuple / list / set display of the anchored modules lists the same computed component twice and no dict display repeats a key (a key or fingerprint built that way cannot tell apart what the missing component would have);'
+  ' (STATE-share) no assignment stores a container field of one object (a field the package updates in place) into a field of another object without copying it, so an in-place update of one object never changes another;'
+  " (ITEM-source) an object built once per item of an inner loop is filled only with values that derive from that item or do not vary with the loops, never with a value of the enclosing container standing where the item's own belongs;"
 )
 RULE_TEXT = "per length-bearing property, per mutator call on ISD-owned values, per return site, per document parameter"
 UNDECIDED = ["white-space collapsing results", "emptiness pruning as semantics (no empty text node, no childless span)",
@@ -420,4 +424,5 @@ def run(ctx):
   npo = sum(trav.check_postorder_emptiness(ctx, g) for g in ctx.ix.funcs_in("ttconv.isd"))
   ctx.floor("ORD-postorder", "recursive pruning steps that test a child's emptiness", npo, 1)
   isdrules.check_style_order(ctx)
+  common.check_walkers(ctx, ["ttconv.isd"])
   common.check_history_independence(ctx, common.CORE)
